@@ -953,3 +953,82 @@ Proof.
 Qed.
 
 End RowIds.
+
+(* ================================================================== Part E: ids and uuids *)
+(* The id skeleton of the rows (row id, type, edge origins, go_to targets) has a uuid-free type;
+   it is the same for a flow and for any injective renaming of it -- for EVERY flow, also for
+   those on which a uuid reaches some other cell (where [export_equivariant] only says
+   [Ok None = Ok None]). *)
+From RPFT Require Import Exp.ToRowsFacts.
+
+Definition row_skel {U} (r : row U str) : str * str * list str * list str :=
+  (r_id r, r_type r, map e_from (r_edges r), r_goto r).
+
+Section IdsEquivariant.
+Variables (U U' : Type) (ueqb : U -> U -> bool) (ueqb' : U' -> U' -> bool).
+Hypothesis ueqb_spec : forall a b, ueqb a b = true <-> a = b.
+Hypothesis ueqb'_spec : forall a b, ueqb' a b = true <-> a = b.
+Variable sg : U -> U'.
+Hypothesis sg_inj : forall a b, sg a = sg b -> a = b.
+
+Lemma row_skel_rn r : row_skel (rn_frow U U' sg r) = row_skel r.
+Proof.
+  unfold row_skel, rn_frow, rn_row, idf. cbn [r_id r_type r_edges r_goto].
+  rewrite map_map, map_id. reflexivity.
+Qed.
+
+Theorem ids_equivariant nb nodes :
+  rmap (map row_skel) (to_rows ueqb' nb (map (rn_node U U' sg) nodes)) = rmap (map row_skel) (to_rows ueqb nb nodes).
+Proof.
+  rewrite (to_rows_rn U U' ueqb ueqb' ueqb_spec ueqb'_spec sg sg_inj).
+  destruct (to_rows ueqb nb nodes) as [rows|e]; cbn [rmap]; [|reflexivity].
+  f_equal. rewrite map_map. apply map_ext. intros r. apply row_skel_rn.
+Qed.
+End IdsEquivariant.
+
+(* ================================================================== witnesses *)
+Local Open Scope N_scope.
+
+(* 1: message "hello" -> 2;
+   2: wait for response; A -> 1 and B -> 1 (two back edges from one node to one node),
+      C -> 3 and Other -> 3 (a join);
+   3: message "hello" (same short name as node 1) -> 2 (a second back edge into node 2);
+   so the sheet has 3 node rows and 3 go_to rows, two of which have the same readable base. *)
+Definition loops_flow : list (node N) :=
+  [ demo_msg 1 (lit "hello") (Some 2);
+    {| n_uuid := 2; n_actions := []; n_ui := None;
+       n_kind := NRouter N KSwitch
+         {| sw_operand := lit "@input.text"; sw_result := lit "Result"; sw_wait := Some 0;
+            sw_cases := [ {| k_type := lit "has_any_word"; k_group := None; k_args := [lit "a"]; k_cat := 21 |};
+                          {| k_type := lit "has_any_word"; k_group := None; k_args := [lit "b"]; k_cat := 22 |};
+                          {| k_type := lit "has_any_word"; k_group := None; k_args := [lit "c"]; k_cat := 23 |} ];
+            sw_cats := [ {| c_uuid := 21; c_name := lit "A"; c_dest := Some 1 |};
+                         {| c_uuid := 22; c_name := lit "B"; c_dest := Some 1 |};
+                         {| c_uuid := 23; c_name := lit "C"; c_dest := Some 3 |} ];
+            sw_default := {| c_uuid := 24; c_name := lit "Other"; c_dest := Some 3 |};
+            sw_noresp := None |} |};
+    demo_msg 3 (lit "hello") (Some 2) ].
+
+Lemma loops_flow_readable :
+  rmap (map row_skel) (to_rows N.eqb false loops_flow)
+  = Ok [ (lit "msg.hello", lit "send_message", [lit "start"], []);
+         (lit "switch.Result", lit "wait_for_response", [lit "msg.hello"], []);
+         (lit "goto.msg.hello", lit "go_to", [lit "switch.Result"], [lit "msg.hello"]);
+         (lit "goto.msg.hello.1", lit "go_to", [lit "switch.Result"], [lit "msg.hello"]);
+         (lit "msg.hello.1", lit "send_message", [lit "switch.Result"; lit "switch.Result"], []);
+         (lit "goto.switch.Result", lit "go_to", [lit "msg.hello.1"], [lit "switch.Result"]) ].
+Proof. vm_compute. reflexivity. Qed.
+
+Lemma loops_flow_numbered :
+  rmap (map row_skel) (to_rows N.eqb true loops_flow)
+  = Ok [ (lit "1", lit "send_message", [lit "start"], []);
+         (lit "2", lit "wait_for_response", [lit "1"], []);
+         (lit "3", lit "go_to", [lit "2"], [lit "1"]);
+         (lit "4", lit "go_to", [lit "2"], [lit "1"]);
+         (lit "5", lit "send_message", [lit "2"; lit "2"], []);
+         (lit "6", lit "go_to", [lit "5"], [lit "2"]) ].
+Proof. vm_compute. reflexivity. Qed.
+
+Lemma loops_flow_sheet :
+  exists sheet, export_strip N.eqb true loops_flow = Ok (Some sheet) /\ List.length sheet = 6%nat.
+Proof. eexists. vm_compute. split; reflexivity. Qed.
